@@ -168,7 +168,7 @@ def ensure_facts(repo=REPO):
 class Fn:
     __slots__ = ("d", "key", "pretty", "name", "crate", "file", "line_lo", "line_hi", "blocks",
                  "locals", "arg_count", "kind", "impl_self", "impl_trait", "derived", "from_expansion",
-                 "_succ", "_reach")
+                 "_succ", "_reach", "closure_args", "generic_of")
 
     def __init__(self, d, crate):
         self.d = d
@@ -189,6 +189,8 @@ class Fn:
         self.from_expansion = d.get("from_expansion", False)
         self._succ = None
         self._reach = None
+        self.closure_args = {}   # {parameter index: closure def path} for a copy specialised on closure arguments
+        self.generic_of = None
 
     def param_name(self, i):
         """i is 0-based argument index"""
@@ -249,6 +251,7 @@ class World:
         self.consts_by_pretty = {}
         self.impls = []
         self.unsafe = []
+        self.spec = {}      # key -> closure-specialised copies of generic functions
         for f in sorted(os.listdir(facts_dir)):
             if not f.endswith(".json"):
                 continue
@@ -271,6 +274,24 @@ class World:
                 self.impls.append(i)
             for u in d["unsafe"]:
                 self.unsafe.append((c, u))
+
+    def specialise(self, fn, cmap):
+        """copy of a generic workspace function bound to the closures passed for its closure-typed parameters
+        (looked up by pretty name only; never part of crate_fns)"""
+        if fn.closure_args:
+            return fn
+        suffix = "<" + ",".join("%d=%s" % (i, c) for i, c in sorted(cmap.items())) + ">"
+        f = self.by_pretty.get(fn.pretty + suffix)
+        if f is None:
+            d = dict(fn.d)
+            d["key"] = fn.key + suffix
+            d["pretty"] = fn.pretty + suffix
+            f = Fn(d, fn.crate)
+            f.closure_args = dict(cmap)
+            f.generic_of = fn
+            self.by_pretty[f.pretty] = f
+            self.spec[f.key] = f
+        return f
 
     def fn(self, pretty):
         f = self.by_pretty.get(pretty)
